@@ -133,10 +133,27 @@ class FillMgr:
     def __init__(self, node, run):
         self.node, self.run = node, run
 
+    def __enter__(self):
+        return self
+
+    def __exit__(self, *a):
+        return False
+
 
 @elaborate_context.register(FillMgr)
 def _elab_fill(m, ctx):
     body(m.node, m.run)
+
+
+from contextlib import contextmanager as _contextmanager
+
+
+@_contextmanager
+def gcm_wrapper(node, run):
+    """a generator-based manager whose body holds the manager that runs the node's body: the hook is reached through the
+    contextlib glue's extraction of the generator, which must carry the caller's options along"""
+    with FillMgr(node, run):
+        yield
 
 
 def slice_holder(node, run, how):
@@ -221,6 +238,23 @@ def invoke(node, run):
                         raise
             else:
                 extract_child(Item(node, run), for_task=False)
+        elif kind == "gcm":
+            cur = outer if outer is not None else (True, False)
+            if cur[0]:       # with_contexts off: the generator's frame is not analysed, its manager's hook never runs
+                pushed = outer is None
+                if pushed:
+                    run.stack.append((True, False))
+                mgr = gcm_wrapper(node, run)
+                mgr.__enter__()
+                try:
+                    fill_context(Context(obj=mgr, is_async=False))
+                finally:
+                    if pushed:
+                        run.stack.pop()
+                    try:
+                        mgr.gen.close()
+                    except BaseException:
+                        pass
         elif kind == "fill":
             pushed = outer is None
             if pushed:
@@ -235,7 +269,7 @@ def invoke(node, run):
     except Boom:
         pass
     except Boom2:
-        if kind not in ("fill",):
+        if kind not in ("fill", "gcm"):
             run.bad.append(["ordinary_exception_escaped", kind])
     except Exception as ex:
         run.bad.append(["api_raised", kind, repr(ex)[:200]])
